@@ -146,6 +146,27 @@ static int spinning_on_again(int rank)      /* tasks of that rank that entered p
     return n;
 }
 
+/* C06 (and what every other DTD oracle takes for granted): parsec_taskpool_wait / parsec_context_wait return only after
+ * every task this rank inserted before the call and has to run itself has completed.  Tasks inserted by tasks count when
+ * their inserter was inserted before the call (it finished, so its insertions happened). */
+static void wait_returned_check(int rank, int kind, long a)
+{
+    if (!RES || RES->vclass) return;
+    int bound = kind == 3 ? (int)a + 1 : SH.ntasks;
+    for (int i = 0; i < SH.ntasks && i < DTD_MAX_TASKS; i++) {
+        dtd_task_desc_t *d = &SH.tasks[i];
+        if (d->is_flush || d->nparams < 1) continue;
+        int top = d->inserter >= 0 ? d->inserter : i;
+        if (top >= bound || exp_rank_of(i) != rank) continue;
+        if (d->inserter >= 0 && !OBS[d->inserter].count) continue;      /* its inserter never ran here: reported elsewhere */
+        if (!OBS[i].end) {
+            hx_fail(RES, "wait-returned-early", "%s returned on rank %d although task %d, inserted before the call%s, has %s", kind == 5 ? "parsec_context_wait" : "parsec_taskpool_wait",
+                    rank, i, d->inserter >= 0 ? " (by a task)" : "", OBS[i].count ? "not finished its body" : "not run");
+            return;
+        }
+    }
+}
+
 void dtdh_event(int rank, int kind, long a, long b)
 {
     if (kind == 11 || kind == 12) { prep_note(rank, (uintptr_t)b, kind == 12); return; }
@@ -156,6 +177,7 @@ void dtdh_event(int rank, int kind, long a, long b)
     if ((kind == 2 || kind == 10) && idx_ok) INS_END[rank][a] = sim_stamp();
     if (kind == 6 && idx_ok) TASK_ADDR[a] = (uintptr_t)b;
     if (kind == 7) after_wait_check(rank, (int)(a >> 8), (int)(a & 0xff), (const int64_t *)(intptr_t)b);
+    if (kind == 3 || kind == 4 || kind == 5) wait_returned_check(rank, kind, a);
     if (kind == 9) sim_probe(PR_NESTED_WINDOW_STOP);
     if (kind == 13) sim_probe(PR_COPY_STALL_FIRED);
     if (kind == 99) hx_fail(RES, "init-failed", "parsec_init returned NULL on rank %d", rank);
